@@ -1,7 +1,7 @@
 (* C01: LapTimer files survive encode -> decode -> encode unchanged. *)
 From Coq Require Import String Ascii List ZArith NArith Bool Lia.
 From TT Require Import Base.Civil.
-From TT Require Import Base.Outcome Base.Str Base.F64 Xml.Print Xml.Lex Laptimer.Leaves Laptimer.Value Laptimer.Codec Proofs.Xml_proofs Proofs.Leaf_proofs Proofs.Doc_proofs Proofs.Doc_lt Proofs.Fixed_proofs.
+From TT Require Import Base.Outcome Base.Str Base.F64 Xml.Print Xml.Lex Laptimer.Leaves Laptimer.Value Laptimer.Codec Proofs.Xml_proofs Proofs.Leaf_proofs Proofs.Doc_proofs Proofs.Doc_lt Proofs.Fixed_proofs Proofs.Leaf2_proofs.
 Import ListNotations.
 Local Open Scope Z_scope.
 
@@ -113,3 +113,18 @@ Theorem C01_nearest_float_prints_back :
     exists m e, decomp_pos (f_of_ratio N (10 ^ Z.of_nat dp)) = Some (m, e) /\ scaled_q m e dp = N.
 Proof. exact printed_back. Qed.
 Print Assumptions C01_nearest_float_prints_back.
+
+(* ---- the second encoding equals the first, for durations and dates ---- *)
+(* decoding floors a duration to 1/100 s and a date to 1 s (1/100 s for fix dates); the floored
+   value prints as the same text, so re-encoding the decoded value writes the same bytes *)
+Theorem C01_duration_reencode :
+  forall d, 0 <= d < 2 ^ 62 -> exists l', quant_leaf (LvDur d) = Ok l' /\ leaf_text l' = leaf_text (LvDur d).
+Proof. exact duration_leaf_reencode. Qed.
+Print Assumptions C01_duration_reencode.
+
+Theorem C01_date_reencode :
+  forall t, first_day * ns_per_day <= t < (first_day + Z.of_nat n_days) * ns_per_day ->
+    (exists l', quant_leaf (LvLapDate t) = Ok l' /\ leaf_text l' = leaf_text (LvLapDate t)) /\
+    (exists l', quant_leaf (LvFixDate t) = Ok l' /\ leaf_text l' = leaf_text (LvFixDate t)).
+Proof. exact date_leaf_reencode. Qed.
+Print Assumptions C01_date_reencode.
